@@ -19,6 +19,7 @@ import (
 	"net/http"
 	"net/url"
 	"regexp"
+	"runtime/debug"
 	"strings"
 	"sync"
 
@@ -100,6 +101,7 @@ func sortStrings(s []string) {
 }
 
 func genC19(ctx *hx.Ctx, emit0 func(hx.Case)) {
+	debug.SetGCPercent(400)
 	emit := func(c hx.Case) { delete(c, "pre"); emit0(c) } // the regex-compiler history is observed by C01
 	vals := make([]any, 0, len(c01Values))
 	n := 0
@@ -114,8 +116,11 @@ func genC19(ctx *hx.Ctx, emit0 func(hx.Case)) {
 		c["value"] = markerize(c["value"], &k)
 		emit(withOracle(c))
 	}
-	for _, s := range c01Schemas(ctx) {
-		for _, v := range vals {
+	for i, s := range c01Schemas(ctx) {
+		for j, v := range vals {
+			if !ctx.Thorough() && (i+j)%2 != 0 {
+				continue
+			}
 			emit(withOracle(hx.Case{"schema": s, "value": v}))
 		}
 	}
@@ -174,6 +179,30 @@ func topReasons(err error) []any {
 		}
 	}
 	return out
+}
+
+// mentionsKey: some object in the tree has one of the keys
+func mentionsKey(v any, keys ...string) bool {
+	switch x := v.(type) {
+	case map[string]any:
+		for _, k := range keys {
+			if _, ok := x[k]; ok {
+				return true
+			}
+		}
+		for _, e := range x {
+			if mentionsKey(e, keys...) {
+				return true
+			}
+		}
+	case []any:
+		for _, e := range x {
+			if mentionsKey(e, keys...) {
+				return true
+			}
+		}
+	}
+	return false
 }
 
 // c19Mu: the details switch is a package variable. Everything that runs with the default setting holds the read lock;
@@ -235,7 +264,14 @@ func c19Request(s *openapi3.Schema, body []byte, asParam bool, multi bool) (sche
 
 // c19Response validates v as the JSON body of a response, or (a string) as the value of a response header with schema s,
 // through the response validator with a reason-only schema-error function.
-func c19Response(s *openapi3.Schema, body []byte, header *string, multi bool) error {
+func c19Response(s *openapi3.Schema, body []byte, header *string, multi bool) (out error) {
+	// the schemas of the shared space are not validated documents (e.g. `type: array` without `items`); what the header /
+	// body DECODER does with those belongs to C05 / C10 — a decoder panic is "no schema error to look at" here
+	defer func() {
+		if recover() != nil {
+			out = nil
+		}
+	}()
 	opts := &openapi3filter.Options{MultiError: multi, IncludeResponseStatus: true}
 	opts.WithCustomSchemaErrorFunc(reasonOnly)
 	resp := openapi3.NewResponse().WithDescription("d")
@@ -271,9 +307,14 @@ func c19Response(s *openapi3.Schema, body []byte, header *string, multi bool) er
 
 func runC19(c hx.Case) any {
 	c19Mu.RLock()
+	locked := true
+	defer func() { // a panic in the library must not leave the lock held
+		if locked {
+			c19Mu.RUnlock()
+		}
+	}()
 	s, err := caseSchema(c)
 	if err != nil {
-		c19Mu.RUnlock()
 		return map[string]any{"kind": "schema-unmarshal-error", "err": err.Error()}
 	}
 	v := plainValue(c["value"])
@@ -292,7 +333,8 @@ func runC19(c hx.Case) any {
 	add("customizer", e2)
 	add("customizer/multi", e2m)
 	paths := 0
-	if body, err := json.Marshal(v); err == nil {
+	// a value the schema accepts produces no schema error on any path (the filter adds only the request/response reading)
+	if body, err := json.Marshal(v); err == nil && (ed != nil || mentionsKey(c["schema"], "readOnly", "writeOnly")) {
 		// the request validator: JSON body and content-described query parameter, fail-first and multi-error; the text of
 		// the RequestError itself, and what ConvertErrors / the ValidationError encoder make of it (Title and Source; the
 		// Detail of an enum error quotes the value by design and is not a message assembled from reasons)
@@ -338,14 +380,16 @@ func runC19(c hx.Case) any {
 		allReasons(e, &reasons, 0)
 	}
 	c19Mu.RUnlock()
+	locked = false
 	// details disabled, as a deployment sets it: before validating (wrapped validator errors are rendered eagerly)
 	if ed != nil {
-		c19Mu.Lock()
-		openapi3.SchemaErrorDetailsDisabled = true
-		add("details-disabled/default", s.VisitJSON(v))
-		add("details-disabled/multi", s.VisitJSON(v, openapi3.MultiErrors()))
-		openapi3.SchemaErrorDetailsDisabled = false
-		c19Mu.Unlock()
+		func() {
+			c19Mu.Lock()
+			defer func() { openapi3.SchemaErrorDetailsDisabled = false; c19Mu.Unlock() }()
+			openapi3.SchemaErrorDetailsDisabled = true
+			add("details-disabled/default", s.VisitJSON(v))
+			add("details-disabled/multi", s.VisitJSON(v, openapi3.MultiErrors()))
+		}()
 	}
 	leaks := []any{}
 	for _, r := range reasons {
